@@ -59,6 +59,24 @@ impl<Ix: IndexType> NodeIndex<Ix> {
 //@ end
 }
 
+impl<Ix: IndexType> NodeIndex<Ix> {
+//@ item src/graph_impl/mod.rs | impl<Ix: IndexType> NodeIndex<Ix> | fn _into_edge
+    fn _into_edge(self) -> (r: EdgeIndex<Ix>)
+        /*+*/ensures r.0 == self.0/*-*/
+    {
+        EdgeIndex(self.0)
+    }
+//@ end
+}
+impl<Ix: IndexType> EdgeIndex<Ix> {
+//@ item src/graph_impl/mod.rs | impl<Ix: IndexType> EdgeIndex<Ix> | fn _into_node
+    fn _into_node(self) -> (r: NodeIndex<Ix>)
+        /*+*/ensures r.0 == self.0/*-*/
+    {
+        NodeIndex(self.0)
+    }
+//@ end
+}
 impl<Ix: IndexType> EdgeIndex<Ix> {
     pub open spec fn i(self) -> int { self.0.ix() as int }
 //@ item src/graph_impl/mod.rs | impl<Ix: IndexType> EdgeIndex<Ix> | fn new
